@@ -349,10 +349,15 @@ def retNil (t : Token) : List Ctx → Option St
 def push (s : St) (kind : CtxKind) (ty : Bool) : St :=
   ⟨.operand, [], ty, ⟨kind, s.path, s.ty⟩ :: s.ctxs⟩
 
+/-- the last token was `<-` -/
+def recvHead : List Frame → Bool
+  | .un .receive :: _ => true
+  | _ => false
+
 /-- top of the outer loop: an operand or a unary operator is expected -/
 def stepOperand (s : St) (t : Token) : Option St :=
   -- `<-` must be followed by `chan` where a type is expected
-  if s.ty = true ∧ (match s.path with | .un .receive :: _ => true | _ => false) = true ∧ t ≠ .kwChan then none
+  if s.ty = true ∧ recvHead s.path = true ∧ t ≠ .kwChan then none
   else
   match t with
   | .lparen => some (push s .paren s.ty)
@@ -461,11 +466,18 @@ def run : St → List Token → Option St
 
 def St.init : St := ⟨.operand, [], false, []⟩
 
-/-- end of the source -/
+/-- end of the source: every pending call of `parseExpr` must be the right side of a `default` -/
+def closeDflt : Expr → List Ctx → Option Expr
+  | e, [] => some e
+  | e, c :: k =>
+    match c.kind with
+    | .dfltRhs l => closeDflt (closeAll (.dflt l e) c.path) k
+    | _ => none
+
 def finish (s : St) : Option Expr :=
-  match (settle s).mode, (settle s).ctxs, (settle s).ty with
-  | .operator e, [], false => some (closeAll e (settle s).path)
-  | _, _, _ => none
+  match (settle s).mode, (settle s).ty with
+  | .operator e, false => closeDflt (closeAll e (settle s).path) (settle s).ctxs
+  | _, _ => none
 
 /-- `parseExpr` on a complete source: `none` is a syntax error -/
 def parse (ts : List Token) : Option Expr :=
